@@ -333,7 +333,7 @@ class Prop:
             elif x < 0.4:
                 known0 = [[r.randrange(dims[k]), r.randrange(dims[k + 1])] for _ in range(r.randint(1, 3))]
             factors.append({"pz": r.choice([0.0, 0.2, 0.5, 0.7]), "start_zero": r.random() < 0.3,
-                            "ones": r.random() < 0.3, "fseed": r.randrange(1 << 30), "known0": known0,
+                            "ones": r.random() < 0.3, "ones_swap": r.random() < 0.25, "fseed": r.randrange(1 << 30), "known0": known0,
                             "chain_dep": r.random() < 0.15,  # evaluating an element first evaluates the previous order of the same factor
                             "late_eval": r.random() < 0.2,  # BlockSeries(data=...) first, `.eval = ...` assigned afterwards
                             "scale": r.choice([0, 0, 0, 3, 6, 9, 12])})  # float values of magnitude 10**-scale
@@ -447,6 +447,8 @@ class Prop:
                         rows, cols = (bsize(i), bsize(j))
                         if sum(n) == 0 and (spec["start_zero"] or [i, j] in spec.get("known0", [])):
                             tab[idx] = zero
+                        elif sum(n) == 0 and spec.get("ones_swap") and dims[k] == dims[k + 1] == 2 and domain == "tracer" and herm != "nonadjoint":
+                            tab[idx] = one if i != j else zero  # the zeroth order swaps two equal-sized blocks
                         elif sum(n) == 0 and spec["ones"] and dims[k] == dims[k + 1]:
                             tab[idx] = one if i == j else zero
                         elif absent:
